@@ -140,7 +140,21 @@ static bool run_once(double dt, const double y0) {
     for (int i = 0; i < NTOT; i++) y[i] = y0;
     g_bad_config = 0;
     naunet.Init(NSYS, VERIF_ATOL, VERIF_RTOL, VERIF_MXSTEPS);
+#ifdef VERIF_PYENTRY
+    /* the python entry point: a failure is an exception, a success hands back the advanced state */
+    int ret;
+    try {
+        std::vector<ssize_t> shp(1, (ssize_t)NTOT);
+        pybind11::array_t<realtype> in(shp, y);
+        pybind11::array_t<realtype> out = naunet.PyWrapSolve(in, dt, data);
+        pybind11::buffer_info bi = out.request();
+        if (bi.size != (ssize_t)NTOT) { fprintf(stderr, "PyWrapSolve returned %ld entries\n", (long)bi.size); exit(4); }
+        memcpy(y, bi.ptr, sizeof(double) * NTOT);
+        ret = NAUNET_SUCCESS;
+    } catch (const std::runtime_error &e) { if (getenv("VERIF_DUMPLOG")) fprintf(stderr, "exception: %s\n", e.what()); ret = NAUNET_FAIL; }
+#else
     int ret = naunet.Solve(y, dt, data);
+#endif
     // a second interval on the same object, whatever the first one did: with a well-behaved integrator it must
     // simply integrate dt again from the state it is given
     Mock keep = M;
@@ -157,6 +171,7 @@ static bool run_once(double dt, const double y0) {
     naunet.Finalize();   // closes the memstream: verif_log_buf/len are final now
     std::string log = verif_log_buf ? std::string(verif_log_buf, verif_log_len) : std::string();
     free(verif_log_buf); verif_log_buf = NULL; verif_log_len = 0;
+    if (getenv("VERIF_DUMPLOG")) fprintf(stderr, "---- error record (ret=%d)\n%s----\n", ret, log.c_str());
     S.runs++;
     if (M.level < 8) S.by_level[M.level]++;
     const char *why = NULL;
